@@ -18,7 +18,13 @@ open OV.Autocast
 opset 13..23 and has an input — as read from /repo's two code paths on this run, with the schema's own
 type-constraint *strings* — the three front ends (converter and eager mode on the `OpSignature` reading, the
 builder on the raw `OpSchema` reading) agree with the rule at every argument position (variadic tail included),
-for every literal of `{0, 1, -3, 2.5, -0.0, True, [1,2], [0.5]}` and every sibling configuration (`agree3AllG`).
+for every literal of `{0, 1, -3, 2.5, -0.0, True, [1,2], [0.5]}` and the 16 FIXED sibling configurations of `probes`
+(`agree3AllG`): all other positions hold tensors of ONE dtype out of `sibSet` = {FLOAT, DOUBLE, FLOAT16, INT64, INT32,
+UINT8, BOOL}, known to the builder (7) or unknown (7), or are all absent (1), or all hold the same literal (1).  This is
+a finite evaluation, not a statement over all dtypes or all argument lists: BFLOAT16, INT8/INT16, UINT16/32/64, float8,
+STRING siblings, and siblings of differing dtypes are never probed here — universality over dtypes, argument lists and
+signatures comes only from `three_agree` / `three_agree_dtype` under their hypotheses; `registry_ok` contributes that the
+two schema readings of every registry row give the same rule and the same casts on these probes.
 The kernel evaluates the check on the interned shape of the row (`ishapes_ok`, `decide +kernel`);
 `agree3All_intern` (renaming invariance of the casts, proved) carries it to the string-keyed signatures. -/
 theorem registry_ok :
@@ -56,15 +62,18 @@ schema's type constraints). -/
 def WellTyped {κ : Type} [DecidableEq κ] (fs : List (Formal κ)) (args : List Arg) : Prop :=
   ∀ sa, assign fs args = .ok sa → WTsa sa
 
-/-- **three_agree.**  For every signature (any number of formals, variadic or not, any type-constraint
+/-- **three_agree** (PARTIAL in the sense of BUILDING.md rule 1, although the name carries no `_partial` suffix: the value
+clause holds only under `allRepresentable`, a hypothesis forced by the OPEN findings D21 and D23 — on inputs outside it the
+real front ends do disagree; what holds unconditionally is `three_agree_dtype`).  For every signature (any number of formals, variadic or not, any type-constraint
 names), every argument list (tensors of any dtype known or unknown to the builder, literals, absent
 optionals, any length) that is well typed and whose literals are representable in the dtype the rule
 assigns them (`allRepresentable`: ints in range of the target and of INT64 / exactly representable in the target
 float; floats exactly float32 unless the target is FLOAT; an int inside a list that NumPy infers as DOUBLE at most
 2^53 in magnitude — lists mixing Python types are included): the converter's `static_cast_inputs`, eager mode's
 `dynamic_cast_inputs` and the builder's `_cast_inputs` all produce exactly the operands the rule prescribes — same
-dtype, same rank, same value — or all three refuse the call (too many arguments).  The range/float32 hypotheses are
-forced: see the two `…_full_refuted_…` theorems (findings D21, D23). -/
+dtype, same rank, same value — or all three refuse the call (too many arguments).  The target-range and float32
+conjuncts are forced: `three_agree_value_full_refuted_int` (D21) and `…_float` (D23) refute the statement with just that
+conjunct dropped; the 2^53 conjunct (`viaOk`) is forced by float64 rounding and has no refutation theorem here. -/
 theorem three_agree {κ : Type} [DecidableEq κ] (fs : List (Formal κ)) (args : List Arg)
     (hwt : WellTyped fs args) (hrep : allRepresentable fs args = true) :
     castStatic fs args = expected fs args ∧ castDynamic fs args = expected fs args
@@ -134,14 +143,15 @@ example : WellTyped sigTT [.tensor .int64 true, .lit (.l (.i 1) [.f false 5 2])]
     allRepresentable sigTT [.tensor .int64 true, .lit (.l (.i 1) [.f false 5 2])] = true :=
   ⟨wellTyped_one_tensor _ _ _ (by intro d k h; cases h), by decide⟩
 
-/-- Full statement without `allRepresentable`, refuted (finding **D21**): `x : UINT8 + (-3)` — the converter's
-`CastLike` wraps to 253, eager mode and the builder raise `OverflowError`. -/
+/-- The **target-range conjunct** of `allRepresentable` is forced (finding **D21**, open).  Statement refuted: "for every
+Python int `v` that fits INT64 (the other integer conjunct kept), beside `x : UINT8` the converter and eager mode feed the
+same operands".  Witness `v = -3`: the converter's `CastLike` wraps to 253, eager mode (and the builder) raise
+`OverflowError`.  No float literal is involved, so none of the float conjuncts can be blamed. -/
 theorem three_agree_value_full_refuted_int :
-    ¬ (∀ (fs : List (Formal Nat)) (args : List Arg), WellTyped fs args →
-        castStatic fs args = castDynamic fs args ∧ castStatic fs args = castBuilder fs args) := by
+    ¬ (∀ v : Int, DType.int64.inRange v = true →
+        castStatic sigTT [.tensor .uint8 true, .lit (.s (.i v))] = castDynamic sigTT [.tensor .uint8 true, .lit (.s (.i v))]) := by
   intro h
-  have := (h sigTT [.tensor .uint8 true, .lit (.s (.i (-3)))]
-    (wellTyped_one_tensor _ _ _ (by intro d k h; cases h))).1
+  have := h (-3) (by decide)
   revert this; decide
 
 /-- The two sides of D21, concretely. -/
@@ -155,15 +165,24 @@ example : dtypes (castStatic sigTT [.tensor .uint8 true, .lit (.s (.i (-3)))]) =
     ∧ dtypes (expected sigTT [.tensor .uint8 true, .lit (.s (.i (-3)))]) = some [some .uint8, some .uint8] := by
   decide
 
-/-- Full statement refuted (finding **D23**): `x : DOUBLE + 0.1` — the converter rounds 0.1 to float32 first
-(`via32 = true`), eager mode and the builder convert the Python float directly. -/
+/-- The **float32 conjunct** of `allRepresentable` is forced (finding **D23**, open).  Statement refuted: "for every
+Python float `±n/d`, beside `x : DOUBLE` the converter and eager mode feed the same operands" — for a DOUBLE target
+`representable (.f _ n d) .double` is exactly `exactF32 n d`, no range condition is involved.  Witness `0.1`: the converter
+rounds it to float32 first (`via32 = true`), eager mode and the builder convert the Python float directly. -/
 theorem three_agree_value_full_refuted_float :
-    ¬ (∀ (fs : List (Formal Nat)) (args : List Arg), WellTyped fs args →
-        castStatic fs args = castDynamic fs args ∧ castStatic fs args = castBuilder fs args) := by
+    ¬ (∀ (neg : Bool) (n d : Nat),
+        castStatic sigTT [.tensor .double true, .lit (.s (.f neg n d))]
+          = castDynamic sigTT [.tensor .double true, .lit (.s (.f neg n d))]) := by
   intro h
-  have := (h sigTT [.tensor .double true, .lit (.s (.f false 3602879701896397 36028797018963968))]
-    (wellTyped_one_tensor _ _ _ (by intro d k h; cases h))).1
+  have := h false 3602879701896397 36028797018963968
   revert this; decide
+
+/-- The witnesses really are the conjuncts named: `-3` fits INT64 but not UINT8; `0.1` is not a float32 and its
+representability beside DOUBLE is that test alone. -/
+example : DType.int64.inRange (-3) = true ∧ DType.uint8.inRange (-3) = false ∧
+    exactF32 3602879701896397 36028797018963968 = false ∧
+    representable (.f false 3602879701896397 36028797018963968) .double = false ∧
+    representable (.f false 1 2) .double = true := by decide
 
 /-- Finding **D24** (a list mixing Python types), fixed by fa769b8 — the former witnesses now agree: `[1, 2.5]` beside
 `x : INT64` is `[1, 2]` in all three front ends; alone (second formal `U` of a `Reshape`-like signature) it is DOUBLE
